@@ -124,6 +124,9 @@ pub mod overlayfs;
 pub mod passthrough;
 pub mod transport;
 
+#[cfg(fuse_backend_rs_verif)]
+pub mod verif_hooks;
+
 pub mod common;
 pub use self::common::*;
 
